@@ -55,6 +55,16 @@ impl Task for EpollJob {
         let mut response = ResponseHandle::new(stream);
         // SAFETY: `in_flight` is set: no other worker runs a job for this connection
         let carry = unsafe { &mut *handle.carry.get() };
+
+        // The event that led to this job may be stale: it was collected before an earlier job of this connection read
+        // the data it announced. With nothing to read the (blocking) read of the next head would hold this worker
+        // until the peer sends something: give the connection back instead (level-triggered: new data is reported again).
+        if carry.is_empty() && nothing_to_read(handle.fd) {
+            #[cfg(khttp_verif)]
+            crate::verif::emit(crate::verif::Event::EpRearm(self.handle_ptr));
+            handle.in_flight.store(false, Ordering::Release);
+            return;
+        }
         let result = loop {
             let result = handle_one_request(stream, &mut response, &handle.handler_config, carry);
             // a request that has already been read from the socket (together with the previous one) cannot wait for
@@ -96,6 +106,20 @@ impl Task for EpollJob {
             graveyard.lock().unwrap().push(self.handle_ptr);
         }
     }
+}
+
+/// `true` if a read on `fd` would block right now (no data, no end of stream, no pending error).
+fn nothing_to_read(fd: RawFd) -> bool {
+    let mut byte = 0u8;
+    let n = unsafe {
+        libc::recv(
+            fd,
+            &mut byte as *mut u8 as *mut libc::c_void,
+            1,
+            libc::MSG_PEEK | libc::MSG_DONTWAIT,
+        )
+    };
+    n == -1 && io::Error::last_os_error().kind() == io::ErrorKind::WouldBlock
 }
 
 impl Server {
